@@ -407,12 +407,16 @@ def apply(run, op):
     return getattr(b, "without_" + name)(addr, **kw)
 
 
-def pending_instance(run, op):
-    """face (a): the whole value handed over is itself a keyed container that does not conform"""
-    if not PENDING_KEYED_INSTANCE or op["route"] not in WHOLE:
-        return False
-    kind = COLL[op["attr"]][0]
-    return op["arg"][0] in ("typed", kind)
+def face_of(op, bad):
+    """which face of candidate 1 (docs/C03.candidate-1.md) a failure of the invariant shows, if any:
+    'instance' -- the whole value handed over is itself a keyed container of the attribute's class
+    (typed or untyped) whose contents do not conform; 'key' -- every non-conforming attribute fails
+    on the KEY type only (its items conform)"""
+    if op["route"] in WHOLE and op["arg"][0] in ("typed", COLL[op["attr"]][0]):
+        return "instance"
+    if all(r == "key" for _, _, r, _ in bad):
+        return "key"
+    return None
 
 
 def run_scenario(sc):
@@ -437,13 +441,11 @@ def run_scenario(sc):
         out["outcomes"].append(oc)
         bad = invariant(run.roots(), run.z)
         if bad:
-            if pending_instance(run, op):
-                out["pending"] = "instance"
+            face = face_of(op, bad)
+            if face == "instance" and PENDING_KEYED_INSTANCE or face == "key" and PENDING_KEY_TYPE:
+                out["pending"] = face
                 return out
-            if PENDING_KEY_TYPE and all(r == "key" for _, _, r, _ in bad):
-                out["pending"] = "key"
-                return out
-            out["violation"] = {"op_index": i, "op": op, "outcome": oc, "bad": bad[:3]}
+            out["violation"] = {"op_index": i, "op": op, "outcome": oc, "bad": bad[:3], "face": face}
             return out
     return out
 
@@ -695,7 +697,8 @@ def run(chk, extra):
         if not res["violation"]:
             continue
         chk.violation(describe(sc, res["violation"]), {"kind": "probe-keyed", "scenario": sc},
-                      sig={"kind": "probe-keyed", "route": key[0], "helper": key[1], "container": key[2], "argument": key[3]})
+                      sig={"kind": "probe-keyed", "route": key[0], "helper": key[1], "container": key[2], "argument": key[3],
+                           "candidate_1_face": res["violation"]["face"]})
     stats["distinct_violating_route_shapes"] = len(seen)
     extra["correspondence"]["keyed_probe"] = stats
 
